@@ -20,3 +20,24 @@ reg('C06', True, 'other',
     'MIR CFG dominators + must-pass-through + provenance dataflow + who-may-call over resolved call graph')
 
 NA_DEFAULT = 'check not built yet in this round (static rules planned in DESIGN.md §4); not claimed until it exists'
+
+reg('C16', True, 'proof',
+    'Exhaustive decision over a finite space read from the source: the 7-arm group table is lifted from the HIR '
+    'of the single match over WallpaperGroups and every one of the 19 operation strings is read with an '
+    'independent exact-rational triplet reader; identity, closure of all ordered pairs, inverses, distinctness '
+    'modulo Z^2, order, set-equality with the ITA general positions (plane groups 1,2,3,4,6,7,8), mirror / glide / '
+    'two-fold content, lattice-system = crystal family, and W^T G W = G for the family metric are checked for all.',
+    'Trusted: the ITA transcription and triplet reader in pk/tables.py; assumes the run-time parser reads these 19 '
+    'literals as the notation defines them (its robustness is C17; its denotation is not decided statically).',
+    'HIR literal-table lifting + exhaustive group-axiom check against an independent ITA table')
+
+reg('C10', True, 'other',
+    'Dataflow/lineage over the MIR of the binary: the serialised, logged and drawn object is one local whose value '
+    'is ParallelIterator::max over the three map stages of 0..replications (None -> Err, no unwrap); Ord::cmp = '
+    'partial_cmp(self, other).unwrap() and partial_cmp = f64::partial_cmp(score(self), score(other)) in that order for '
+    'both state types (sibling check); JSON bytes = that serialisation, written to outfile.json, SVG = as_svg of the '
+    'same object to outfile.svg; label table (name = CLI variant, family, full operation count) for all 7 groups; '
+    'labels and every operation string carried through Wallpaper::new / WyckoffSite::new / from_group / all 5 arms of '
+    'main; replica closures do not capture the replica count (prefix-monotonicity of the max).',
+    'Trusted: rayon map/max semantics, serde_json::to_string, svg::save, std fs. Does not decide file-system effects.',
+    'MIR value-lineage dataflow + HIR literal table + sibling-implementation cross-check')
